@@ -40,6 +40,72 @@ WORDS = ["?lt", "?eq", "?gt", "?le", "?ge", "?ne", "!lt", "!eq", "!gt", "!le", "
 INFIX = {"?lt": "<", "?eq": "==", "?gt": ">", "?le": "<=", "?ge": ">=", "?ne": "!="}
 
 
+def dwarf_value_laws(ctx, h):
+    """DWARF / ELF values of every documented type: a value equals its copy, exactly one of <, ==, > holds for any two of a
+    kind, and A < B iff B > A — on the implementation (raw DIEs: cooked DIEs reached over different import paths are excepted,
+    see DESIGN)"""
+    import os
+    from . import dwcorr, elfsym
+    fs = dwcorr.Forests(ctx)
+    rng = ctx.rng
+    LOCV = "entry attribute ?(label == (DW_AT_location, DW_AT_frame_base, DW_AT_data_member_location)) value ?(type == T_LOCLIST_ELEM)"
+    kinds = [("raw DIE", "raw entry"), ("raw attribute", "raw entry attribute"), ("attribute", "entry ?(pos < 6) attribute"),
+             ("unit", "unit"), ("raw unit", "raw unit"), ("location-list element", LOCV), ("location operation", LOCV + " elem"),
+             ("abbreviation table", "abbrev"), ("abbreviation", "abbrev entry"), ("abbreviation attribute", "abbrev entry ?(pos < 5) attribute"),
+             ("symbol", "symbol")]
+    ok = 0
+    try:
+        files = []
+        for k in range(3 if ctx.tier == "quick" else 25):
+            desc, path = fs.make(rng, max_units=2, min_units=1, max_dies=10, rich_ops=0.6, loclists=0.5, extras=0.2)
+            files.append(path)
+        o = elfsym.gen_symobj(rng, elfsym.TARGETS[rng.randrange(len(elfsym.TARGETS))])
+        sp = os.path.join(fs.dir, "sym.o")
+        open(sp, "wb").write(o.bytes())
+        files += [os.path.join(common.REPO, "tests", f) for f in ("nullptr.o", "location-list.o", "enum.o")]
+        for path in files + [sp]:
+            if not os.path.exists(path):
+                continue
+            for what, P in kinds:
+                if (what == "symbol") != (path == sp):
+                    continue
+                laws = [("a %s equals its copy" % what, "?([%s] (|L| L elem ?(pos < 40) (|X| X X !eq)))" % P),
+                        ("a %s equals its `dup`" % what, "%s dup !eq" % P),
+                        ("exactly one of <, ==, > holds for two %ss" % what,
+                         "?([%s] (|L| L elem ?(pos < 14) (|X| L elem ?(pos < 14) (|Y| [X Y (?lt, ?eq, ?gt) 1] length != 1))))" % P),
+                        ("A < B iff B > A for two %ss" % what,
+                         "?([%s] (|L| L elem ?(pos < 14) (|X| L elem ?(pos < 14) (|Y| [X Y ?lt 1] length != [Y X ?gt 1] length))))" % P),
+                        ("A == B iff B == A for two %ss" % what,
+                         "?([%s] (|L| L elem ?(pos < 14) (|X| L elem ?(pos < 14) (|Y| [X Y ?eq 1] length != [Y X ?eq 1] length))))" % P)]
+                obs = {"location-list element": "[address, [elem [offset, label]]]", "location operation": None,
+                       "raw DIE": "offset", "unit": "offset", "raw unit": "offset", "abbreviation": "offset",
+                       "abbreviation table": "offset", "symbol": "[pos, name, value]"}.get(what)
+                if obs and path in files[:len(files) - 3]:
+                    # values that show different things are different (one attribute, one file: nothing shared between them)
+                    src = P if what != "location-list element" else "entry ?(pos < 30) attribute ?(label == (DW_AT_location, DW_AT_frame_base)) (|A| [A value ?(type == T_LOCLIST_ELEM)])"
+                    if what == "location-list element":
+                        laws.append(("two elements of one location that show different things are different",
+                                     "%s (|L| L elem (|X| L elem (|Y| ?(X %s != Y %s) ?(X == Y))))" % (src, obs, obs)))
+                    else:
+                        laws.append(("two %ss that show different things are different" % what,
+                                     "?([%s] (|L| L elem ?(pos < 14) (|X| L elem ?(pos < 14) (|Y| ?(X %s != Y %s) ?(X == Y)))))" % (P, obs, obs)))
+                recs, crashes = fs.query(path, [q for _, q in laws])
+                for (nm, q), r in zip(laws, recs):
+                    if r.err and r.err.startswith("compile"):
+                        raise RuntimeError("law query does not compile: %s: %s" % (q, r.err))
+                    if r.err:
+                        continue
+                    if r.res:
+                        ctx.violation("law fails on %s: %s — `%s` yields a result" % (os.path.basename(path), nm, q),
+                                      {"stream": "C09-dwarf-values", "input": fs.inp(None, path, q), "got": r.res[:2], "expected": [],
+                                       "theorem": "ZwVerif.C09.cmpAny_good"})
+                    else:
+                        ok += 1
+    finally:
+        fs.cleanup()
+    return ok
+
+
 def run(ctx):
     ctx.prove("ZwVerif.Props.C09", THEOREMS + ORDER_THEOREMS, extra_targets=["ZwVerif.Props.C09Order"])
     h = zwcorr.Harness(ctx)
@@ -140,6 +206,7 @@ def run(ctx):
             if full[(i, j)][1] and full[(j, k)][1] and not full[(i, k)][1]:
                 ctx.violation("== is not transitive: %s == %s == %s but not %s == %s" % (pool[i], pool[j], pool[k], pool[i], pool[k]),
                               {"stream": "C09-trans", "input": [pool[i], pool[j], pool[k]], "theorem": "ZwVerif.C09.cst_eq_iff_key"})
+    ctx.cov["dwarf_value_laws_ok"] = 0 if ctx.replay else dwarf_value_laws(ctx, h)
     ctx.cov["evaluations"] = stats["programs"] + len(lines)
     ctx.cov["distinct_nontrivial"] = stats["distinct_nontrivial"]
     ctx.cov["pairs_law_checked"] = laws
